@@ -12,9 +12,9 @@ from mc.result import Result
 PROPERTY = 'C19'
 LEVEL = 'model_checking'
 CHUNK = 8
-RULE = ('place of the process start (32 places: run/$/% in setup, before-assert, assert, cleanup; -stdout-from in file / stdin = / env / equals; run text transformer, '
+RULE = ('place of the process start (37 places: run/$/% in setup, before-assert, assert, cleanup; -stdout-from in file / stdin = / env / equals; run text transformer, '
         'run text matcher, run file matcher; the action to check under the command-line, shell, file-interpreter and source-interpreter forms) x duration of the '
-        'child relative to the timeout in force {T-1, T, T+1, never ends, never ends and ignores SIGTERM, never ends and a second never-ending process in [cleanup]} x timeout history {default only, set before (T=1, 5), set after, none before, T then none, '
+        'child relative to the timeout in force {T-1, T, T+1, T-1 with 200 kB of output on stdout and 100 kB on stderr (a pipe nobody reads would block it), never ends, never ends and ignores SIGTERM, never ends and a second never-ending process in [cleanup]} x timeout history {default only, set before (T=1, 5), set after, none before, T then none, '
         'none then T, set in an earlier phase, T then T2; for the 5 places whose process starts later than the instruction naming it: set between the two (4 histories)}; lifecycle states (running, timed-out, cleanup, ended) x place are the graph; plus 7 places under --act; plus a real-process slice '
         '(8 places x {plain sleeper, SIGTERM-ignoring sleeper}); non-trivial = the child outlives the timeout or there is no timeout')
 ASSUMPTIONS = [
@@ -60,6 +60,12 @@ PLACES = {
     'setup-def-text-matcher-used-in-assert': (('assert',), {'setup': ['def text-matcher TM = run % P'], 'assert': ['stdout @[TM]@']}),
     'setup-def-text-transformer-used-in-before-assert': (('before-assert',), {'setup': ['def text-transformer TT = run % P'],
                                                                            'before-assert': ["file t.txt = -contents-of -rel-result stdout -transformed-by TT"]}),
+    # -ignore-exit-code ignores the exit code of a process that ENDED - not a timeout
+    'setup-run-ignore-exit-code': (('setup',), {'setup': ['run -ignore-exit-code % P']}),
+    'setup-file-stdout-from-ignore-exit-code': (('setup',), {'setup': ['file out.txt = -stdout-from -ignore-exit-code % P']}),
+    'setup-file-transformed-by-run-ignore-exit-code': (('setup',), {'setup': ["file o.txt = 'x' -transformed-by run -ignore-exit-code % P"]}),
+    'assert-run-transformer-ignore-exit-code': (('assert',), {'assert': ['stdout -transformed-by ( run -ignore-exit-code % P ) ! is-empty']}),
+    'act-transformed-by-run-ignore-exit-code': (('act',), {'act': ['% atc\n   -transformed-by run -ignore-exit-code % P']}),
     'cleanup-file-stdout-from': (('cleanup',), {'cleanup': ['file cl.txt = -stdout-from % P']}),
     'cleanup-shell': (('cleanup',), {'cleanup': ['$ P']}),
     'cleanup-run': (('cleanup',), {'cleanup': ['run % P']}),
@@ -87,7 +93,8 @@ HISTORIES.update({
     '5-then-post-none': ([('setup', 5), ('post', None)], None),
     'none-then-post-5': ([('setup', None), ('post', 5)], 5),
 })
-DURS = ('T-1', 'T', 'T+1', 'inf', 'inf-ignore-term', 'inf-and-cleanup-inf')
+DURS = ('T-1', 'T', 'T+1', 'inf', 'inf-ignore-term', 'inf-and-cleanup-inf', 'T-1-big-output')
+BIG_OUT = 'a line of the output of a talkative child process\n' * 4200     # > 200 kB: more than any pipe buffer holds
 
 
 def prepare(tier):
@@ -207,10 +214,13 @@ def run(case) -> Result:
     if dur in ('inf', 'inf-ignore-term', 'inf-and-cleanup-inf'):
         d = INF
     elif T is None:
-        d = {'T-1': 59, 'T': 60, 'T+1': 100000}[dur]
+        d = {'T-1': 59, 'T': 60, 'T+1': 100000, 'T-1-big-output': 59}[dur]
     else:
-        d = {'T-1': T - 1, 'T': T, 'T+1': T + 1}[dur]
+        d = {'T-1': T - 1, 'T': T, 'T+1': T + 1, 'T-1-big-output': T - 1}[dur]
     seam.script['slow'] = {'dur': d, 'out': 'slow output\n', 'ignore_term': dur == 'inf-ignore-term'}
+    if dur == 'T-1-big-output':
+        # a child that ends in time but writes a lot on both streams: wherever its output goes, it must be able to finish
+        seam.script['slow'].update(out=BIG_OUT, err=BIG_OUT[:100000])
     seam.script['atc'] = {'out': 'act out\n'}
     double = dur == 'inf-and-cleanup-inf'
     if double:
